@@ -48,6 +48,7 @@ type scheduler struct {
 	segs   []Seg
 	mode   string // stratified | sliced | replay
 	mean   int
+	hintFunc string // function in which the task that just parked is suspended
 	switchesInCall int
 }
 
@@ -89,6 +90,8 @@ func soloRun(tr *Trace, want string) (*Result, []int64) {
 func (s *scheduler) newDirective(t *mtask) {
 	t.dirSite = -1
 	t.stopAt = 0
+	hint := s.hintFunc
+	s.hintFunc = ""
 	switch s.mode {
 	case "sliced":
 		// geometric countdown with the run's mean
@@ -98,14 +101,23 @@ func (s *scheduler) newDirective(t *mtask) {
 		}
 		t.stopAt = t.clk.ticks + n
 	case "stratified":
-		var cand []int
+		var cand, same []int
 		for site, total := range t.profile {
 			if total > t.clk.hits[site] {
 				cand = append(cand, site)
+				if hint != "" && simyield.SiteFunc[site] == hint {
+					same = append(same, site)
+				}
 			}
 		}
 		if len(cand) == 0 {
 			return
+		}
+		if len(same) > 0 && s.rng.Chance(0.6) {
+			// rendezvous: park this task inside the function in which the
+			// previous task is suspended (shared scratch is only harmful when
+			// two instances are inside the same code at overlapping times)
+			cand = same
 		}
 		site := cand[s.rng.Intn(len(cand))]
 		rem := t.profile[site] - t.clk.hits[site]
@@ -232,6 +244,7 @@ func runMulti(t *Trace, want string, rng *RNG) (results []*Result, switches int)
 			}
 		} else {
 			switches++
+			s.hintFunc = simyield.SiteFunc[ev.site]
 			if !replay {
 				s.segs = append(s.segs, Seg{Task: et.id, Ticks: ran, Site: ev.site})
 			}
@@ -269,7 +282,12 @@ func checkMulti(t *Trace, want string, rng *RNG) *Result {
 			res.Probes[k] += v
 		}
 		a, b := solos[i], inter[i]
-		if d := firstObsDiff(a, b, true); d >= 0 {
+		if firstObsDiff(a, b, false) < 0 && firstObsDiff(a, b, true) >= 0 {
+			// same observations, different amount of work: recorded, not a
+			// verdict (the property speaks about emitted blocks)
+			res.Probes["interleaved_ticks_differ_only"]++
+		}
+		if d := firstObsDiff(a, b, false); d >= 0 {
 			res.Viol = &Violation{Prop: "C13", Clause: "interference", Step: d,
 				Msg: fmt.Sprintf("task %d (%s): operation %d observed %q when run alone and %q when interleaved with other instances", i, taskKind(t.Tasks[i]), d, obsAt(a, d), obsAt(b, d))}
 			return res
